@@ -132,16 +132,22 @@ def run_case(case: dict) -> dict:
             res["status"] = "excluded"
             res["excluded_by"] = "crosstalk"
             return res
+        if "crosstalk" in excl and fam in ("c02", "c06"):
+            hit = False
+            for w_, o_ in ((wa, tw.obs[0]), (wb, tw.obs[1])):
+                if fam == "c02":
+                    hit = hit or c02.known_crosstalk(w_, o_, stmts)
+                else:
+                    ents = [c06._entity_at(w_, c["proto"], (c["x"], c["y"])) for c in case.get("containers") or []]
+                    hit = hit or c06.known_crosstalk(w_, o_, stmts, [e for e in ents if e is not None], anchors=True)
+            if hit:
+                res["status"] = "excluded"
+                res["excluded_by"] = "crosstalk"
+                return res
         if "same-source-two-roles" in excl and c02.same_source_two_roles(stmts):
             res["status"] = "excluded"
             res["excluded_by"] = "same-source-two-roles"
             return res
-        if fam == "c03" and "const-cell-data" in excl:
-            _d, cd, _e = c03._support(stmts)
-            if any(not v for v in cd.values()):
-                res["status"] = "excluded"
-                res["excluded_by"] = "const-cell-data"
-                return res
         if fam == "c02" and (c02.static_tags(stmts) | ({"same-source-two-roles"} if c02.same_source_two_roles(stmts) else set())) & excl:
             res["status"] = "excluded"
             res["excluded_by"] = "bundle-wiring"
